@@ -106,7 +106,7 @@ def generate(seed: int, tier: str = "quick") -> Dict[str, Any]:
     elif kind == "focus":
         from .sched import FOCUS_CHOICES
 
-        pol["focus"] = rs.choice(FOCUS_CHOICES)
+        pol["focus"] = rs.choice(FOCUS_CHOICES) if rs.random() < 0.3 else f"auto:{rs.randrange(1 << 20)}"
         pol["p_in"] = rs.choice([0.2, 0.5, 0.5, 1.0])
         pol["p_out"] = rs.choice([0.0, 0.0002, 0.001])
     else:
@@ -230,6 +230,7 @@ def run_threads(threads: List[Dict[str, Any]], policy: Dict[str, Any], pre: Opti
         "livelock": sched.livelock,
         "deadlock": sched.deadlock,
         "lock_blocks": sched.lock_blocks,
+        "hot_profile": {str(t): w.hot_profile for t, w in sched.workers.items()},
         "errors": {str(t): e for t, e in errors.items()},
     }
 
@@ -249,7 +250,8 @@ def _alone(thread: Dict[str, Any], pre: Optional[str], trace_lark: bool) -> Dict
     REF_RUNS += 1
     if len(_ALONE_CACHE) > 20000:
         _ALONE_CACHE.clear()
-    out = {"out": res["outs"]["0"], "steps": res["steps"], "errors": res["errors"]}
+    out = {"out": res["outs"]["0"], "steps": res["steps"], "errors": res["errors"],
+           "hot": res["hot_profile"]["0"]}
     _ALONE_CACHE[key] = out
     return out
 
@@ -277,7 +279,17 @@ def execute(trace: Dict[str, Any]) -> Dict[str, Any]:
             raise kit.HarnessError(f"alone run of thread {tid} failed in the harness: {a['errors']}")
     k = sum(a["steps"] for a in alone.values())
     cap = 50 * k + 10000
-    res = run_threads(threads, trace["policy"], pre, trace_lark, k, cap)
+    policy = trace["policy"]
+    if policy.get("kind") == "focus" and str(policy.get("focus", "")).startswith("auto:"):
+        # the focus function is chosen among the functions touching shared state (sim/hotness.py)
+        # that at least two of the threads actually execute when run alone
+        count: Dict[str, int] = {}
+        for a in alone.values():
+            for q in a["hot"]:
+                count[q] = count.get(q, 0) + 1
+        cands = sorted(q for q, n in count.items() if n >= 2) or sorted(count) or ["<module>"]
+        policy = dict(policy, focus=cands[int(policy["focus"].split(":")[1]) % len(cands)])
+    res = run_threads(threads, policy, pre, trace_lark, k, cap)
     violations: List[Dict[str, Any]] = []
     stats: Dict[str, int] = {}
     if res["errors"] and not res["livelock"]:
@@ -346,6 +358,8 @@ def execute(trace: Dict[str, Any]) -> Dict[str, Any]:
     if res["lock_blocks"]:
         stats["probe_thread_blocked_on_library_lock"] = res["lock_blocks"]
     stats["policy_" + trace["policy"]["kind"]] = 1
+    if policy.get("kind") == "focus":
+        stats["focus_" + str(policy["focus"])] = 1
     stats["threads"] = len(threads)
     stats["runners_" + "".join(sorted(set(runner_of.values())))] = 1
     if trace_lark:
